@@ -21,6 +21,11 @@ def has_member(v, key):
     return is_obj(v) and any(k.lower() == key for k, _ in v[1])
 
 
+def has_exact(v, key):
+    """what the daemon SENDS is judged by the exact member names of JSON-RPC (what it ACCEPTS follows cJSON's case-insensitive lookup)"""
+    return is_obj(v) and sum(1 for k, _ in v[1] if k == key) == 1
+
+
 def step_requests(st, replies=None, si=None):
     """(conn, canonical request value | None) for every inbound message of a scenario step, in processing order"""
     k = st[0]
@@ -142,7 +147,7 @@ def mon_c02(sc, res):
                 fails.append("step %d: unparsable JSON sent to c%d" % (si, d))
                 continue
             if is_response(v):
-                if has_member(v, b"result") == has_member(v, b"error"):
+                if has_member(v, b"result") == has_member(v, b"error") or has_exact(v, b"result") == has_exact(v, b"error"):
                     fails.append("step %d: response to c%d has not exactly one of result/error: %s" % (si, d, show(v)[:120]))
                 resp_to.setdefault(d, []).append(v)
         for c, msgs in by_conn.items():
